@@ -47,7 +47,9 @@ ASSUMPTIONS = [
     "frames within the accepted zone of the limit (C07 table)",
 ]
 RULE = (
-    "case = serializer config x packet list x cut sizes (copy path) or fill sizes + buffer hint (buffered path) x converter; "
+    "case = serializer config (incl. debug=True variants, packets that keep their deserialize() argument, 1..4-byte separators, "
+    "composites, file toys with every expected_load_error set) x packet list x cut sizes (copy path) or fill sizes + buffer hint "
+    "(buffered path) x converter; "
     "non-trivial = at least one cut strictly inside a frame, or several frames delivered from one read; distinct by full case digest"
 )
 
@@ -363,7 +365,8 @@ def extra_coverage(stats) -> dict:
             "file-based, zlib/bz2 wrappers are run against the oracle only in this check",
             # ---- raw JSON framer ----
             "raw_json": "raw JSON (use_lines=False) is compared with the Lean model JRaw (endriver `jraw <limit>`) on the copy path",
-            "model_runs_by_framer": dict(sorted(sers.MODEL_RUNS.items()))}
+            "model_runs_by_framer": dict(sorted(sers.MODEL_RUNS.items())),
+            "retained_packets": dict(sd.RETAINED)}
 
 
 def after_batch() -> None:
